@@ -97,6 +97,20 @@ def strategy_(g):
 
         for _ in range(rnd.randint(1, 2)):
             edges.insert(rnd.randrange(len(edges) + 1), _copy.deepcopy(rnd.choice(edges)))
+    if edges and g.choice([False, False, True]):
+        # information handed over as an integer-dtype array (np.diag([...]) of whole-number weights), with entries in the upper half
+        # of the dtype's range: the values are numbers like any other and must reach the file unchanged
+        for e in edges:
+            if rnd.random() < 0.5:
+                dt = rnd.choice(["int64", "int32", "int16", "int8"])
+                hi = int(np.iinfo(dt).max)
+                n = len(e["info"])
+                M = [[0] * n for _ in range(n)]
+                for i in range(n):
+                    M[i][i] = rnd.randint(hi // 2 + 1, hi)
+                    for j in range(i + 1, n):
+                        M[i][j] = M[j][i] = rnd.choice([0, 0, 1, -1, rnd.randint(-(hi // 4), hi // 4)])
+                e["info"], e["info_dtype"] = M, dt
     case = {"src": src, "verts": verts, "edges": edges, "params": {str(k): v for k, v in params.items()}, "registered": g.choice(["all", "all", "none", "some"]), "cycles": cycles, "extreme": extreme}
     case["edits"] = [g.choice(["none", "none", "offset", "offset-reassign", "vertex", "measurement", "information"]) for _ in range(cycles)]
     case["keep_object"] = [g.boolean() for _ in range(cycles)]
@@ -164,6 +178,8 @@ def build_prog(case):
     shared_off = {}
     for e in case["edges"]:
         info = np.array(e["info"], dtype=float)
+        if e.get("info_dtype"):
+            info = np.array(e["info"], dtype=e["info_dtype"])
         if e["t"] == "odo":
             edges.append(gs.EdgeOdometry(list(e["ids"]), info, gs.mk_pose(e["z"])))
         else:
@@ -378,6 +394,8 @@ def check(case, ctx):
         outside = bool(np.any((np.abs(allnums) > 1e6) | ((np.abs(allnums) < 1e-6) & (allnums != 0))))
         if has_off:
             ctx.event("landmark-edge-with-offset")
+        if any(np.asarray(e.information).dtype.kind == "i" for e in g0._edges):
+            ctx.event("integer-dtype-information")
         if wneg:
             ctx.event("w<0")
         if outside:
